@@ -589,6 +589,12 @@ def check_use_sites(prog: Program, rep: Report) -> None:
                 if loops and isinstance(loops[-1].target, ast.Tuple) and isinstance(loops[-1].iter, ast.Call) and norm(loops[-1].iter.func) == "enumerate":
                     idx, unit = (norm(e) for e in loops[-1].target.elts)
                     same = isinstance(rate, ast.Subscript) and norm(rate.slice) == idx and norm(ident) == f"{unit}.identifier"
+                    # enumerate(zip(rates, units)): the pair (rate, unit) is bound position by position, which is the same pairing
+                    inner_t, inner_it = loops[-1].target.elts[1], loops[-1].iter.args[0] if loops[-1].iter.args else None
+                    if not same and isinstance(inner_t, ast.Tuple) and len(inner_t.elts) == 2 and isinstance(inner_it, ast.Call) \
+                            and norm(inner_it.func) == "zip" and len(inner_it.args) == 2:
+                        r_name, u_name = (norm(e) for e in inner_t.elts)
+                        same = norm(call.args[0]) == r_name and norm(call.args[1]) == f"{u_name}.identifier"
                     rep.ob("R5.4-rate-of-same-unit", same, loc, call,
                            "the rate inserted for a unit must be the table entry with that unit's index")
                 # every unit of the factor is inserted, whatever the sign of its derivative: the lifting schemes need the positive
